@@ -69,6 +69,15 @@ func adversarial() []scen.Case {
 			return scen.Unit{Controllers: []scen.Controller{ctl}, Decls: map[string]string{id + "/" + pn: "type T" + id + " struct {\n\tA int `json:\"a\"`\n}\n"}}
 		}, map[string]string{"package": pn})
 	}
+	// annotation values in an unusual letter case: either refused, or generated into code that compiles
+	for _, verb := range []string{"get", "Post", "dELETE", "Get"} {
+		verb := verb
+		add("verb written as "+verb, func(id string) scen.Unit {
+			m := scen.Method{Name: "Op" + id, Verb: verb, Route: scen.S("/op"), Ret: "string"}
+			ctl := scen.Controller{Name: "C" + id, Pkg: id, Prefix: scen.S("/" + id), Tag: scen.S("T" + id), Methods: []scen.Method{m}}
+			return scen.Unit{Controllers: []scen.Controller{ctl}}
+		}, map[string]string{"verb": verb})
+	}
 	add("same controller name in two packages", func(id string) scen.Unit {
 		mk := func(pkg, route string) scen.Controller {
 			return scen.Controller{Name: "Twin" + id, Pkg: id + "/" + pkg, Prefix: scen.S("/" + id + "/" + pkg), Tag: scen.S("T" + id + pkg),
